@@ -36,6 +36,36 @@ func devSection(r *core.Run) {
 		}
 		return
 	}
+	if os.Getenv("C07_DEV_REFPANIC") != "" {
+		inputs := pool(l1PoolText)
+		g := newGrammar(2, false)
+		n := 0
+		g.each(2, func(p string) {
+			if n >= 12 || !strings.Contains(p, "def f") {
+				return
+			}
+			code, err := refCompile(p)
+			if err != nil {
+				return
+			}
+			for i, in := range inputs {
+				done := make(chan Obs, 1)
+				go func() { done <- refRun(code, in) }()
+				select {
+				case o := <-done:
+					if o.Panic {
+						fmt.Printf("REFPANIC %s input %s: %v\n", p, l1PoolText[i], o)
+						n++
+						return
+					}
+				case <-time.After(5 * time.Second):
+					fmt.Printf("REFHANG %s input %s\n", p, l1PoolText[i])
+					os.Exit(0)
+				}
+			}
+		})
+		return
+	}
 	prefix := os.Getenv("C07_DEV_PREFIX")
 	K := 1
 	fmt.Sscan(os.Getenv("C07_DEV_K"), &K)
